@@ -86,10 +86,12 @@ def stage(ctx, name, fn):
     return None
 
 
-# The whole check runs under a NON-UTC process time zone (chosen by the seed; seed 0 = +05:45 without DST).  pyorbital's
+# The whole check runs under a NON-UTC process time zone (chosen by the seed; seed 0 = +05:45 / +06:45 with daylight-saving switches).  pyorbital's
 # answers must not depend on the host's zone; code that converts naive or aware datetimes through the local zone
 # (`astimezone()` without argument, `time.mktime`, `datetime.fromtimestamp`) is invisible on a UTC host and visible here.
-PROCESS_ZONES = ["<+0545>-5:45", "XYZ4", "CET-1CEST,M3.5.0,M10.5.0/3", "<-0930>9:30", "UTC0", "JST-9"]
+# seed 0: +05:45 in winter, +06:45 in summer (a fractional offset AND daylight-saving switches)
+PROCESS_ZONES = ["XST-5:45XDT-6:45,M3.5.0/2,M10.5.0/3", "XYZ4", "CET-1CEST,M3.5.0,M10.5.0/3", "<-0930>9:30", "UTC0", "JST-9",
+                 "<+0545>-5:45", "PST8PDT,M3.2.0,M11.1.0"]
 
 
 # The checks run the implementation under `python -O` (./check passes -O; child interpreters inherit PYTHONOPTIMIZE):
